@@ -833,10 +833,14 @@ impl<'a> Sim<'a> {
             Msg::Vote { tx, shard, vote } => {
                 let Some(id) = self.obs[tx].id else { return };
                 let yes = matches!(vote, PrepareVote::Yes { .. });
+                // (single-threaded schedule: nothing else records votes between these reads)
+                let had_before = self.coord.get(id).map(|t| t.votes.contains_key(&shard)).unwrap_or(false);
                 match self.coord.record_vote(id, shard, vote) {
-                    Ok(None) if self.wal.is_some() && !self.coord.get(id).map(|t| t.votes.contains_key(&shard)).unwrap_or(false) => {
+                    Ok(None) if self.wal.is_some() && (had_before || !self.coord.get(id).map(|t| t.votes.contains_key(&shard)).unwrap_or(false)) => {
                         // with a log, record_vote answers Ok(None) without recording the vote
-                        // when the vote cannot be logged: not an accepted vote
+                        // when the vote cannot be logged (the refusal comes before any validation,
+                        // so a duplicate of a recorded vote is answered the same way): not an
+                        // accepted vote. With a log that takes the record a duplicate is an Err.
                         self.note_refusal("PrepareVote");
                     }
                     Ok(r) => {
